@@ -157,6 +157,12 @@ EXT_CONTENT = ["parse_tls_extension_unknown", "parse_tls_extension_sni_hostname"
                "parse_tls_extension_heartbeat_content", "parse_tls_extension_alpn_content",
                "parse_tls_extension_signed_certificate_timestamp_content", "parse_tls_extension_psk_key_exchange_modes_content",
                "parse_tls_extension_renegotiation_info_content", "parse_tls_extension_encrypted_server_name", "parse_named_groups"]
+TAGGED_TYPES = {"parse_tls_extension_sni": 0, "parse_tls_extension_max_fragment_length": 1, "parse_tls_extension_status_request": 5,
+                "parse_tls_extension_elliptic_curves": 10, "parse_tls_extension_ec_point_formats": 11, "parse_tls_extension_signature_algorithms": 13,
+                "parse_tls_extension_heartbeat": 15, "parse_tls_extension_encrypt_then_mac": 22, "parse_tls_extension_extended_master_secret": 23,
+                "parse_tls_extension_session_ticket": 35, "parse_tls_extension_key_share": 51, "parse_tls_extension_pre_shared_key": 41,
+                "parse_tls_extension_early_data": 42, "parse_tls_extension_supported_versions": 43, "parse_tls_extension_cookie": 44,
+                "parse_tls_extension_psk_key_exchange_modes": 45}
 PROPS["C05"] = dict(
     families=[("ext", 700), ("extwrong", 200), ("extlist", 200)],
     corpus_entries=EXT_SINGLE + EXT_LISTS + EXT_TAGGED + EXT_CONTENT,
@@ -487,6 +493,31 @@ def derive_cases(pid, cases, tier, rng):
     """C06: for every case of a self-delimiting parser, the same input followed by (a) random bytes, (b) a copy of
     itself (bytes that look like a valid structure), (c) a single zero byte.  The expectation names the base case."""
     from vlib import Case, split_line
+    if pid == "C05":
+        # every input of a single-purpose parser also through the generic dispatcher and vice versa (post oracle:
+        # they agree after the parser's own type, and the single-purpose parser refuses every other type)
+        out, seen = [], set(c.line for c in cases)
+        bytype = {v: k for k, v in TAGGED_TYPES.items()}
+        for c in cases:
+            e, a, hx = split_line(c.line)
+            if hx == "-" or len(hx) < 8 or re.search(r"[^0-9a-f]", hx): continue
+            t = int(hx[:4], 16)
+            new = []
+            if e in TAGGED_TYPES: new.append("parse_tls_extension " + hx)
+            if e == "parse_tls_extension" and t in bytype: new.append("%s %s" % (bytype[t], hx))
+            for l in new:
+                if l not in seen: seen.add(l); out.append(Case(l, "", "paired"))
+        # maximal list-valued extensions through every dispatcher and their single-purpose parsers
+        def ext(t, d): return (bytes([t >> 8, t & 255, (len(d) >> 8) & 255, len(d) & 255]) + d).hex()
+        big = [(11, bytes([255]) + bytes(range(255))), (11, bytes([254]) + bytes(254)), (45, bytes([255]) + bytes(255)), (0xff01, bytes([255]) + bytes(255)),
+               (10, (65534).to_bytes(2, "big") + b"\x00\x17" * 32767), (13, (65534).to_bytes(2, "big") + b"\x04\x03" * 32767),
+               (0, (65531).to_bytes(2, "big") + b"\x00" + (65528).to_bytes(2, "big") + bytes(65528)), (16, (256).to_bytes(2, "big") + bytes([255]) + bytes(255)), (16, (65535).to_bytes(2, "big") + (bytes([254]) + bytes(254)) * 257),
+               (43, bytes([254]) + b"\x03\x04" * 127), (1, b"\x04"), (15, b"\x01"), (5, b"\x01" + bytes(300)), (35, bytes(65535)), (51, bytes(65535)), (41, bytes(65535)), (44, bytes(65535)), (42, b"\x00\x00\x00\x07")]
+        for t, d in big:
+            for e in EXT_SINGLE + ([bytype[t]] if t in bytype else []):
+                l = "%s %s" % (e, ext(t, d))
+                if l not in seen: seen.add(l); out.append(Case(l, "", "paired"))
+        return out
     if pid != "C06": return []
     out = []
     for c in cases:
@@ -582,6 +613,21 @@ def direct_oracle(pid, case, impl_out):
                 # prefix of the payload, each within its own 24-bit length
                 r = _handshake_framing(b[5:5+L], "(ok @_+0 %s)" % m.group(2), exact=False)
                 if r: return r
+    if pid == "C05" and impl_out and impl_out.startswith("(ok") and not case.line.startswith("@"):
+        # a length field exceeding the enclosing block never yields a value: the first inner length prefix of the
+        # list- / vector-valued extensions against the extension's own declared length
+        import vlib
+        e, a, hx = vlib.split_line(case.line)
+        if (e in EXT_SINGLE or e in TAGGED_TYPES) and hx != "-" and len(hx) >= 8 and not re.search(r"[^0-9a-f]", hx):
+            b = bytes.fromhex(hx)
+            t, L = int.from_bytes(b[:2], "big"), int.from_bytes(b[2:4], "big")
+            content = b[4:4 + L]
+            pre = {0: 2, 10: 2, 13: 2, 16: 2, 48: 2, 11: 1, 45: 1, 0xff01: 1}.get(t)
+            known = {0: "SNI", 10: "EllipticCurves", 13: "SignatureAlgorithms", 16: "ALPN", 48: "OidFilters", 11: "EcPointFormats", 45: "PskExchangeModes", 0xff01: "RenegotiationInfo"}
+            if pre and len(b) >= 4 + L and len(content) >= pre and not (e == "parse_tls_server_hello_extension" and t in (10, 45, 48)):
+                inner = int.from_bytes(content[:pre], "big")
+                if inner > len(content) - pre:
+                    return "the inner length (%d) exceeds the extension's declared block (%d bytes after the prefix): no value may be returned" % (inner, len(content) - pre)
     if pid in ("C14", "C06") and case.line.startswith("parse_ct_signed_certificate_timestamp_list "):
         import vlib
         e, a, hx = vlib.split_line(case.line)
@@ -657,6 +703,22 @@ def post_oracle(pid, cases, outs):
         return _chain_oracle(cases, outs, binp, "tls_parser_many", "parse_tls_plaintext") + \
                _chain_oracle(cases, outs, binp, "parse_dtls_plaintext_records", "parse_dtls_plaintext_record")
     if pid == "C06": return _append_oracle(cases, outs)
+    if pid == "C05":
+        import vlib
+        by_line = {c.line: o for c, o in zip(cases, outs)}
+        for c, o in zip(cases, outs):
+            e, a, hx = vlib.split_line(c.line)
+            if e not in TAGGED_TYPES or hx == "-" or len(hx) < 4 or o is None or re.search(r"[^0-9a-f]", hx): continue
+            t = int(hx[:4], 16)
+            if t != TAGGED_TYPES[e]:
+                if not (o.startswith("(err Tag") or o.startswith("(inc")):
+                    fails.append((c, o, "a single-purpose extension parser accepts exactly its own IANA type (%d): Error(Tag) expected for type %d" % (TAGGED_TYPES[e], t)))
+                continue
+            g = by_line.get("parse_tls_extension " + hx)
+            if g is None or t == 15: continue       # heartbeat: the single-purpose parser additionally insists on length 1
+            if vlib.strip_offsets(o) != vlib.strip_offsets(g):
+                fails.append((c, o, "after its own type the single-purpose parser must agree with the generic parser, which returns %s" % g[:300]))
+        return fails
     if pid not in ("C07",): return fails
     import vlib
     fails += _defrag_refinement(cases, outs, vlib.harness_paths("default")[2])
@@ -1047,6 +1109,17 @@ def _ser_cases(tier, rng):
         if rng.random() < 0.15: ms[rng.randrange(k)] = rng.choice(["alert", "app", "cert"])
         ty = (22 if hs else 20) if rng.random() < 0.85 else rng.choice([20, 21, 22, 23])
         out.append("@ser rec %d %d %s" % (ty, rng.choice([ver(), 0xfeff]), ";".join(ms)))
+    # records whose fragment is at and around the record-length cap (the parser accepts up to 2^14+256), and at 2^14
+    for frag in (16383, 16384, 16385, 16639, 16640):
+        out.append("@ser rec 22 771 fin,%s" % hx(frag - 4))
+        out.append("@ser rec 22 771 hr;cke,u,%s" % hx(frag - 8))
+        out.append("@ser rec 20 771 %s" % ";".join(["ccs"] * frag))
+    # boundary values of the inner lengths: empty and maximal DH / ECDH / opaque values, empty and 32-byte session ids
+    for k in "ude":
+        for size in (0, 1, 2, 254, 255, 256):
+            if k == "e" and size > 255: continue
+            out.append("@ser msg cke,%s,%s" % (k, hx(size)))
+            out.append("@ser rec 22 771 cke,%s,%s" % (k, hx(size)))
     for _ in range(n // 2):
         out.append("@ser ext " + ex())
     for _ in range(n // 3):
